@@ -1399,6 +1399,10 @@ def _memmap_(
                 if to_pickle:
                     with open(prefix / "other.pickle", "wb") as pickle_file:
                         pickle.dump(to_pickle, pickle_file)
+                elif (prefix / "other.pickle").exists():
+                    # left by a former save in the same directory: its content would
+                    # override the metadata when loading
+                    os.remove(prefix / "other.pickle")
 
         if executor is None:
             save_metadata()
